@@ -111,6 +111,11 @@ fn build(sh: &Shape, ids: &[ObjectId], dang: &[ObjectId]) -> (Document, Vec<Obje
     let dang_arr = || Object::Array(dang.iter().map(|d| rf(*d)).collect());
 
     let mut doc = Document::with_version("1.5");
+    if !dang.is_empty() {
+        // stale references (same number, other generation) to every object, discovered by any
+        // traversal BEFORE the real references because this is the first trailer entry
+        doc.trailer.set("Aaa", Object::Array(ids.iter().map(|i| rf((i.0, 1 - i.1.min(1)))).collect()));
+    }
     let mut put = |id: ObjectId, o: Object| {
         assert!(doc.objects.insert(id, o).is_none(), "duplicate id in generator");
     };
